@@ -88,7 +88,7 @@ def describe_path(edges, start=None):
     return out
 
 
-def escapes(cfg, starts, is_target, *, exits=('exit',), exc='*', weak=False, avoid_edge=None, extra_exit=None):
+def escapes(cfg, starts, is_target, *, exits=('exit',), exc='*', weak=False, avoid_edge=None, extra_exit=None, edge_ok=None):
     """Must-pass-through: is there a path from *starts* to an exit that avoids every target node?
 
     Returns None when every path passes a target, else the counterexample as an edge list.
@@ -98,7 +98,7 @@ def escapes(cfg, starts, is_target, *, exits=('exit',), exc='*', weak=False, avo
     """
     starts = list(starts)
     seen, parent = search(starts, avoid_node=is_target, avoid_edge=avoid_edge, exc=exc, weak=weak,
-                          stop=extra_exit)
+                          stop=extra_exit, edge_ok=edge_ok)
     ends = []
     if 'exit' in exits and cfg.exit in seen:
         ends.append(cfg.exit)
